@@ -26,6 +26,7 @@ EXPLANATION = (
     ' (R4, round 3) conservation verdict: exact under an is_integer() guard, tolerance <= 1e-6 otherwise, integral summands as Python ints; (R6) option dictionaries are None-safe, a declared k=None is replaced before validation, additional starts / ends of the node expansion must be nodes, data multiplying solver variables are converted.'
     ' (R4, round 4) the validators of graphutils are not memoised (a graph hashes by identity); (R1) validation sites are canonicalised with store forwarding (validating a parameter before it is stored = validating the attribute afterwards), `a and (b or c)` = nested ifs, `a and any(Q)` = loop with raise.'
     ' (R4, hunt 4) the non-integral branch of the conservation verdict uses a tolerance scaled by math.ulp of the sums (a fixed relative tolerance accepts whole units at 3e9).'
+    ' (R6, hunt 5) the tolerance check of SolverWrapper rejects NaN; the lower-bound helpers of MinFlowDecomp, which run before any k-model validated the input, return no bound for flow values that are not >= 0 and select window constraints by tuple-guarded edge membership (ValueError from the k-model instead of a bare Exception / TypeError).'
 )
 DECIDED = ["each documented domain violation has a ValueError rejection on every completing path", "delegated checks are always invoked",
            "exception type", "wrappers forward what the sub-model must validate"]
@@ -447,8 +448,12 @@ def _normalised_node_loop(lp: ast.For) -> ast.For:
     counts: Dict[str, int] = {}
     vals: Dict[str, ast.AST] = {}
     banned = set()
+    # (locals of the inner summation loops are left to the rule that reads those loops)
+    in_inner = {id(x) for inner_ in ast.walk(lp) if isinstance(inner_, (ast.For, ast.While)) and inner_ is not lp for x in ast.walk(inner_)}
     for n in ast.walk(lp):
-        if isinstance(n, ast.Assign) and len(n.targets) == 1 and isinstance(n.targets[0], ast.Name):
+        if isinstance(n, ast.Assign) and len(n.targets) == 1 and isinstance(n.targets[0], ast.Name) and id(n) in in_inner:
+            banned.add(n.targets[0].id)
+        elif isinstance(n, ast.Assign) and len(n.targets) == 1 and isinstance(n.targets[0], ast.Name):
             counts[n.targets[0].id] = counts.get(n.targets[0].id, 0) + 1
             vals[n.targets[0].id] = n.value
         elif isinstance(n, ast.AugAssign) and isinstance(n.target, ast.Name):
